@@ -5,6 +5,7 @@ package broker
 import (
 	"fmt"
 	"math/rand"
+	"sort"
 	"testing"
 	"time"
 
@@ -13,7 +14,10 @@ import (
 
 // c43Member is the observer's clock bookkeeping for one member id.
 type c43Member struct {
-	session    time.Duration
+	session    time.Duration // announced with the member's latest JoinGroup that the coordinator answered 0 / REBALANCE_IN_PROGRESS
+	sessLow    time.Duration // = session, unless a later join was answered with another code: then the smaller one (lower bound stays lenient)
+	sessHigh   time.Duration // likewise the larger one (upper bound stays lenient)
+	prev       time.Duration // the session timeout in force before the latest change (0 = never changed)
 	lastLive   time.Duration // latest join reply, or heartbeat answered 0 or REBALANCE_IN_PROGRESS (id and generation were accepted)
 	lastStrict time.Duration // latest join reply or heartbeat answered 0
 	lastAny    time.Duration // latest request of any kind that named this id
@@ -30,6 +34,9 @@ type c43Obs struct {
 	rmin, rmax, interval time.Duration
 
 	expiredOK, laggardOK, survivedByHeartbeat int
+	// a re-join changed a known member's session timeout, and the difference showed: a heartbeat accepted after a gap longer
+	// than the previous (shorter) timeout / a legitimate removal earlier than the previous (longer) timeout allowed
+	outlivedPrevSession, expiredBeforePrevSession int
 }
 
 func (o *c43Obs) violate(w *gWorld, ev *gEvent, class, summary string, extra map[string]any) {
@@ -56,14 +63,44 @@ func (o *c43Obs) observe(w *gWorld, ev *gEvent) {
 	switch ev.K {
 	case "join":
 		if ev.Code >= 0 && ev.MemberID != "" {
+			known := o.mem[ev.MemberID] != nil
 			x := o.m(ev.MemberID, now)
-			x.session = time.Duration(w.cfg.SessionMs[ev.Slot]) * time.Millisecond
+			// the member's session timeout is the one its LATEST accepted JoinGroup announced
+			ann := time.Duration(ev.SessMs) * time.Millisecond
+			if ev.Code == 0 || ev.Code == 27 || !known {
+				if known && ann != x.session {
+					x.prev = x.session
+					dir := "shorter"
+					if ann > x.session {
+						dir = "longer"
+					}
+					phase := b.State
+					if !b.Exists {
+						phase = "absent"
+					}
+					o.r.Count("rejoins_announcing_a_"+dir+"_session", 1)
+					o.r.Seen("session_change_phases", phase+"/"+dir)
+				}
+				x.session, x.sessLow, x.sessHigh = ann, ann, ann
+			} else {
+				// answered with some other code: unclear whether the announcement took effect; lenient both ways
+				if ann < x.sessLow {
+					x.sessLow = ann
+				}
+				if ann > x.sessHigh {
+					x.sessHigh = ann
+				}
+			}
 			x.lastLive, x.lastStrict, x.lastAny = now, now, now
 			o.lastBump = now
 		}
 	case "hb":
 		if x := o.mem[ev.ReqID]; x != nil {
 			x.lastAny = now
+			if (ev.Code == 0 || ev.Code == 27) && x.prev > 0 && x.prev < x.session && now > x.lastLive+x.prev+o.interval {
+				o.outlivedPrevSession++
+				o.r.Count("heartbeats_accepted_after_a_gap_longer_than_the_previous_session", 1)
+			}
 			if ev.Code == 0 {
 				x.lastLive, x.lastStrict = now, now
 			} else if ev.Code == 27 {
@@ -90,11 +127,15 @@ func (o *c43Obs) observe(w *gWorld, ev *gEvent) {
 			continue
 		}
 		info := w.ids[id]
-		sessionLapsed := now >= x.lastLive+x.session
+		sessionLapsed := now >= x.lastLive+x.sessLow
 		laggard := b.State == groupStatePreparingStr && info != nil && info.LastJoinGen != b.Gen && now >= o.rebStart+o.rmin
 		if sessionLapsed {
 			o.expiredOK++
 			o.r.Count("removed_after_session_lapse", 1)
+			if x.prev > x.session && now < x.lastLive+x.prev {
+				o.expiredBeforePrevSession++
+				o.r.Count("removed_after_a_shortened_session_before_the_previous_one_lapsed", 1)
+			}
 			continue
 		}
 		if laggard {
@@ -103,12 +144,15 @@ func (o *c43Obs) observe(w *gWorld, ev *gEvent) {
 			continue
 		}
 		class := "member_removed_before_its_timeout"
-		if now >= x.lastStrict+x.session && x.hb27 > 0 {
+		if x.prev > 0 && x.prev < x.sessLow && now >= x.lastLive+x.prev {
+			// the removal is explained exactly by policing the member with the timeout its latest join superseded
+			class = "member_expired_by_superseded_session_timeout"
+		} else if now >= x.lastStrict+x.sessLow && x.hb27 > 0 {
 			// the removal is explained exactly by not counting heartbeats that were answered REBALANCE_IN_PROGRESS
 			class = "heartbeat_during_rebalance_does_not_refresh_session"
 		}
-		o.violate(w, ev, class, fmt.Sprintf("member %s (session %s) removed at t=%s; its last accepted contact (join, or heartbeat answered 0/27) was at t=%s, last join or heartbeat answered 0 at t=%s; group was %s generation %d, member had joined generation %d",
-			id, x.session, now, x.lastLive, x.lastStrict, b.State, b.Gen, func() int32 {
+		o.violate(w, ev, class, fmt.Sprintf("member %s (session %s as announced by its latest join, %s before that) removed at t=%s; its last accepted contact (join, or heartbeat answered 0/27) was at t=%s, last join or heartbeat answered 0 at t=%s; group was %s generation %d, member had joined generation %d",
+			id, x.session, x.prev, now, x.lastLive, x.lastStrict, b.State, b.Gen, func() int32 {
 				if info != nil {
 					return info.LastJoinGen
 				}
@@ -131,8 +175,12 @@ func (o *c43Obs) observe(w *gWorld, ev *gEvent) {
 			continue
 		}
 		info := w.ids[id]
-		if now > x.lastAny+x.session+o.interval {
-			o.violate(w, ev, "silent_member_not_removed", fmt.Sprintf("member %s (session %s) still listed at t=%s, its last request of any kind was at t=%s, cleanup interval %s", id, x.session, now, x.lastAny, o.interval), map[string]any{"member": id})
+		if now > x.lastAny+x.sessHigh+o.interval {
+			class := "silent_member_not_removed"
+			if x.prev > x.sessHigh && now <= x.lastAny+x.prev+o.interval {
+				class = "silent_member_kept_for_superseded_session_timeout" // explained exactly by the timeout its latest join superseded
+			}
+			o.violate(w, ev, class, fmt.Sprintf("member %s (session %s, before its latest re-join %s) still listed at t=%s, its last request of any kind was at t=%s, cleanup interval %s", id, x.session, x.prev, now, x.lastAny, o.interval), map[string]any{"member": id})
 			return
 		}
 		if a.State == groupStatePreparingStr && info != nil && info.LastJoinGen != a.Gen && now > o.lastBump+o.rmax+o.interval {
@@ -214,11 +262,137 @@ func c43Template(rng *rand.Rand, cfg gConfig) []gOp {
 	return ops
 }
 
+// c43Resession builds the scenarios in which a member's session timeout CHANGES: a group is formed,
+// then member X re-joins under its own member id announcing a different session timeout (a restarted /
+// reconfigured client) while the group is stable, preparing a rebalance, completing one, or with the
+// re-join itself starting the rebalance (new subscription). After that X either heartbeats with a
+// period that lies between the two timeouts (only the new, longer one keeps it alive) or falls silent
+// (it has to go once the new, shorter one lapsed, long before the old one), while the others keep
+// heartbeating well within their own timeouts. Judged by the unchanged observer.
+func c43Resession(rng *rand.Rand, cfg gConfig, sessions []int64) []gOp {
+	var ops []gOp
+	for i := 0; i < cfg.M; i++ {
+		ops = append(ops, gOp{K: "join", Slot: i, Sub: gRandSub(rng, cfg.Universe)})
+	}
+	ops = append(ops, gOp{K: "settle"})
+	x := rng.Intn(cfg.M)
+	old := cfg.SessionMs[x]
+	minS := old
+	for _, s := range cfg.SessionMs {
+		if s < minS {
+			minS = s
+		}
+	}
+	cand := []int64{old * 2, old + 2*cfg.CleanupMs + 1 + rng.Int63n(2000), old * 3}
+	if rng.Intn(2) == 0 { // shorter
+		cand = []int64{old / 2, old / 4, old - 2*cfg.CleanupMs - 1 - rng.Int63n(old/3)}
+	}
+	for _, s := range sessions {
+		if (s > old) == (cand[0] > old) && s != old {
+			cand = append(cand, s)
+		}
+	}
+	nw := cand[rng.Intn(len(cand))]
+	if nw < 600 {
+		nw = 600
+	}
+	if nw == old {
+		nw = old * 2
+	}
+	if d := rng.Int63n(minS / 2); d > 0 && rng.Intn(3) > 0 {
+		ops = append(ops, gOp{K: "advance", DtMs: d})
+	}
+	gone := -1 // a slot that abandoned its member id or left: it takes no further part
+	other := (x + 1 + rng.Intn(cfg.M-1)) % cfg.M
+	rejoin := gOp{K: "join", Slot: x, SessMs: nw}
+	switch phase := rng.Intn(5); phase {
+	case 0: // stable
+	case 1: // preparing a rebalance: somebody joined afresh (its old id will lag), X re-joins into the open rebalance
+		ops = append(ops, gOp{K: "join", Slot: other, Fresh: true})
+	case 2: // preparing a rebalance after a leave
+		ops = append(ops, gOp{K: "leave", Slot: other})
+		gone = other
+	case 3: // completing a rebalance: after a leave everybody left re-joined, nobody synced yet; X then re-joins once more
+		ops = append(ops, gOp{K: "leave", Slot: other})
+		gone = other
+		for i := 0; i < cfg.M; i++ {
+			if i != gone {
+				ops = append(ops, gOp{K: "join", Slot: i})
+			}
+		}
+	case 4: // the re-join itself starts the rebalance: new subscription and new session timeout in one request
+		rejoin.Sub = gRandSub(rng, cfg.Universe)
+	}
+	if rng.Intn(3) == 0 {
+		ops = append(ops, gOp{K: "advance", DtMs: 1 + rng.Int63n(cfg.CleanupMs*2)})
+	}
+	ops = append(ops, rejoin)
+	switch rng.Intn(3) {
+	case 0: // the well-behaved rest of the round: everybody (re-)joins and syncs
+		ops = append(ops, gOp{K: "settle"})
+	case 1:
+		ops = append(ops, gOp{K: "sync", Slot: x})
+	}
+	// timeline of heartbeats
+	type tev struct {
+		at   int64
+		slot int
+		k    string
+	}
+	var evs []tev
+	var dur int64
+	if nw > old {
+		lo, hi := old+cfg.CleanupMs+1, nw-1
+		period := hi
+		if hi > lo {
+			period = lo + rng.Int63n(hi-lo+1)
+		}
+		dur = period * int64(3+rng.Intn(4))
+		k := "hb"
+		if rng.Intn(2) == 0 {
+			k = "hbr"
+		}
+		for t := period; t <= dur; t += period {
+			evs = append(evs, tev{t, x, k})
+		}
+	} else {
+		dur = old + 3*cfg.CleanupMs + rng.Int63n(1500)
+	}
+	for i := 0; i < cfg.M; i++ {
+		if i == x || i == gone {
+			continue
+		}
+		s := cfg.SessionMs[i]
+		pi := s/4 + rng.Int63n(s/2)
+		for t := pi; t <= dur; t += pi {
+			evs = append(evs, tev{t, i, "hbr"})
+		}
+	}
+	sort.SliceStable(evs, func(i, j int) bool { return evs[i].at < evs[j].at })
+	cur := int64(0)
+	for _, e := range evs {
+		if e.at > cur {
+			ops = append(ops, gOp{K: "advance", DtMs: e.at - cur})
+			cur = e.at
+		}
+		ops = append(ops, gOp{K: e.k, Slot: e.slot})
+	}
+	if dur > cur {
+		ops = append(ops, gOp{K: "advance", DtMs: dur - cur})
+	}
+	// epilogue: X shows up once more (told UNKNOWN_MEMBER_ID if it was expired), then silence until everybody is gone
+	ops = append(ops, gOp{K: "hb", Slot: x})
+	if rng.Intn(2) == 0 {
+		ops = append(ops, gOp{K: "advance", DtMs: nw + old})
+	}
+	return ops
+}
+
 func TestVerifC43(t *testing.T) {
 	r := verifkit.Start(t, "C43", "group")
 	gSeedSalt = r.Seed
-	defer r.Finish("real GroupCoordinator (cleanup interval 100-500 ms) over the real InMemoryStore on synctest virtual time; half the cases are PRNG op lists rich in heartbeats and time advances, half are structured timing scenarios (members heartbeating with a period below their session timeout through stable phases and through long rebalances, one member silent or lagging the rebalance). The stored member set is probed at every cleanup tick instant and after every request. Lower bound: a member may disappear (other than by its own LeaveGroup) only at t >= last accepted contact + session timeout (accepted contact = JoinGroup reply, Heartbeat answered 0 or REBALANCE_IN_PROGRESS), or, while the group is preparing a rebalance it has not re-joined, at t >= rebalance start + smallest rebalance timeout in use. Upper bound: a listed member whose last request of any kind is older than session + cleanup interval is a violation; so is a laggard still listed later than last join by anyone + largest rebalance timeout + cleanup interval. A removal that leaves members behind must raise the stored generation. non-trivial = case with a legitimate expiry and a member that outlived join+session only thanks to heartbeats",
-		"heartbeats answered ILLEGAL_GENERATION/UNKNOWN_MEMBER_ID do not count as heartbeating for the lower bound but do count as contact for the upper bound (lenient both ways)", "either trigger (session lapse, or rebalance timeout for a member that has not re-joined) legitimises a removal", "exact because time is virtual and probes sit on the cleanup ticks")
+	defer r.Finish("real GroupCoordinator (cleanup interval 100-500 ms) over the real InMemoryStore on synctest virtual time; half the cases are PRNG op lists rich in heartbeats and time advances, half are structured timing scenarios (members heartbeating with a period below their session timeout through stable phases and through long rebalances, one member silent or lagging the rebalance); joins in the PRNG lists announce a freshly drawn session timeout with probability 0.3, and a third family of scripted cases changes a member's session timeout: a known member re-joins under its own member id announcing a longer or a shorter timeout while the group is stable, preparing a rebalance (after a fresh join or a leave), completing one, or with the re-join itself starting the rebalance (new subscription), and then heartbeats with a period between the old and the new timeout, or stays silent from before the new until after the old timeout, while the others keep heartbeating. A member's session timeout is the one announced by its latest JoinGroup the coordinator accepted (answered 0 or REBALANCE_IN_PROGRESS). The stored member set is probed at every cleanup tick instant and after every request. Lower bound: a member may disappear (other than by its own LeaveGroup) only at t >= last accepted contact + session timeout (accepted contact = JoinGroup reply, Heartbeat answered 0 or REBALANCE_IN_PROGRESS), or, while the group is preparing a rebalance it has not re-joined, at t >= rebalance start + smallest rebalance timeout in use. Upper bound: a listed member whose last request of any kind is older than session + cleanup interval is a violation; so is a laggard still listed later than last join by anyone + largest rebalance timeout + cleanup interval. A removal that leaves members behind must raise the stored generation. non-trivial = case with a legitimate expiry and a member that outlived join+session only thanks to heartbeats; for the session-change cases: a heartbeat accepted after a gap longer than the superseded timeout, or a legitimate expiry earlier than the superseded timeout allowed",
+		"heartbeats answered ILLEGAL_GENERATION/UNKNOWN_MEMBER_ID do not count as heartbeating for the lower bound but do count as contact for the upper bound (lenient both ways)", "either trigger (session lapse, or rebalance timeout for a member that has not re-joined) legitimises a removal", "a JoinGroup answered with any other code leaves it open which announced timeout is in force: the smaller one is used for the lower bound, the larger one for the upper bound (does not occur over the in-memory store)", "exact because time is virtual and probes sit on the cleanup ticks")
 	p := gDefaultProfile
 	p.WJoin, p.WSync, p.WHB, p.WLeave, p.WCommit, p.WFetch, p.WAdvance, p.WSettle = 22, 8, 30, 2, 2, 0, 28, 8
 	p.WHBR = 12
@@ -227,6 +401,7 @@ func TestVerifC43(t *testing.T) {
 	p.Rebals = []int64{1500, 3000, 6000, 12000}
 	p.Cleanups = []int64{100, 250, 500}
 	p.MixRebal = true
+	p.PResess = 0.3
 	n := r.N(500, 12000)
 	seen := func(w *gWorld, ev *gEvent) { r.Seen("group_states", w.stateSig(ev.After)) }
 	account := func(ci int, w *gWorld, o *c43Obs) {
@@ -270,9 +445,39 @@ func TestVerifC43(t *testing.T) {
 		w := gRunCase(t, cfg, ops, int64(ci)*100000, func(w *gWorld) { w.obs = append(w.obs, o.observe, seen) })
 		account(ci, w, o)
 	}
+	// session-timeout changes: the same member id re-joins announcing a longer / shorter timeout in every group phase
+	nRe := r.N(240, 6000)
+	for k := 0; k < nRe; k++ {
+		ci := 1000000 + k
+		rng := r.Rand(ci)
+		cfg := gGenConfig(rng, p, fmt.Sprintf("s%d", k))
+		if cfg.M < 2 {
+			cfg.M = 2
+			cfg.SessionMs = append(cfg.SessionMs, p.Sessions[rng.Intn(len(p.Sessions))])
+			cfg.RebalMs = append(cfg.RebalMs, cfg.RebalMs[0])
+		}
+		ops := c43Resession(rng, cfg, p.Sessions)
+		o := c43NewObs(r, cfg)
+		w := gRunCase(t, cfg, ops, int64(ci%20000)*100000, func(w *gWorld) { w.obs = append(w.obs, o.observe, seen) })
+		if w.blocked {
+			r.Inconclusive(fmt.Sprintf("session-change case %d: a coordinator call never returned", k))
+		}
+		r.Case(gOpsSig(w), o.outlivedPrevSession+o.expiredBeforePrevSession > 0)
+		r.Count("steps_and_probes", int64(len(w.log)))
+		r.Count("probes_where_a_member_lived_on_heartbeats_only", int64(o.survivedByHeartbeat))
+		r.Count("cases_with_a_scripted_session_timeout_change", 1)
+		if k < 2 {
+			r.Sample(gWitness(w, -1, nil))
+		}
+	}
 	r.Floor("removed_after_session_lapse", 100)
 	r.Floor("removed_as_rebalance_laggard", 20)
 	r.Floor("probes_where_a_member_lived_on_heartbeats_only", 200)
 	r.Floor("group_states", 12)
+	r.Floor("rejoins_announcing_a_longer_session", 60)
+	r.Floor("rejoins_announcing_a_shorter_session", 60)
+	r.Floor("heartbeats_accepted_after_a_gap_longer_than_the_previous_session", 40)
+	r.Floor("removed_after_a_shortened_session_before_the_previous_one_lapsed", 20)
+	r.Floor("session_change_phases", 6)
 	r.Exhaustive(false) // a sample of histories; the bounded-exhaustive part is leg enum
 }
